@@ -101,6 +101,8 @@ def evaluate(ctx, cases):
             pc = c['center'] == 'peak'
         else:
             df, th = _make_table(c); pc = c['pc']; red = None
+        if c['seed'] % 4 == 1 and not (c['kind'] == 'signal' and c['via'] == 'object'):
+            df = implutil.user_columns(df)          # (columns a user added: 'all other columns are unchanged' covers them)
         if c['seed'] % 3 == 0 and not (c['kind'] == 'signal' and c['via'] == 'object'):
             # row labels that are not positions (as after limit_df / boolean filtering)
             df = df.copy(); df.index = np.arange(len(df)) * 2 + 7
